@@ -15,7 +15,7 @@ def _runs(tier):
     if tier == "quick":
         return [
             {"harness": "c14_rej", "args": [], "budget": 240, "jobs": 4},
-            {"harness": "c14_oom", "args": ["--modes", "alloc,abandon", "--max-allocs", "1500"], "budget": 260, "jobs": 12},
+            {"harness": "c14_oom", "args": ["--modes", "alloc,abandon", "--max-allocs", "1200"], "budget": 260, "jobs": 12},
             {"harness": "c14_i8", "args": ["--modes", "overflow"], "budget": 240, "jobs": 4},
         ]
     return [
